@@ -817,6 +817,35 @@ class Analysis:
                     return False
         return True
 
+    def predicate_of(self, st, name, args):
+        """(op, a, b) in this function's terms when `name` is a local predicate summarised as `arg-linear a <op> b`"""
+        summ = self.summaries.get(name) or {}
+        if "bool" not in summ:
+            return None
+        op, la, lb = summ["bool"]
+
+        def sub(l):
+            out = lin_const(l[0])
+            for sy, c in l[1]:
+                islen = sy.startswith("len(")
+                base = sy[4:-1] if islen else sy
+                ai = int(base[1:]) - 1
+                if ai >= len(args):
+                    return None
+                if islen:
+                    ls = self._len_sym(args[ai])
+                    x = lin_sym(ls) if ls else None
+                else:
+                    x = self.op_lin(st, args[ai])
+                if x is None:
+                    return None
+                out = lin_add(out, lin_scale(x, c))
+            return out
+        a, b = sub(la), sub(lb)
+        if a is None or b is None:
+            return None
+        return op, a, b
+
     def apply_cond(self, st, cond, truth):
         """Refine `st` with `cond` being `truth`.  Returns False when the edge is infeasible."""
         if cond is None:
@@ -857,6 +886,18 @@ class Analysis:
             return True
         _, name, args, positive = cond
         truth = truth if positive else not truth
+        pred = self.predicate_of(st, name, args)
+        if pred is not None:
+            op, la, lb = pred
+            if not truth:
+                op = NEG[op]
+            new = {"Lt": [lin_add(lin_add(la, lin_const(1)), lb, -1)], "Le": [lin_add(la, lb, -1)],
+                   "Gt": [lin_add(lin_add(lb, lin_const(1)), la, -1)], "Ge": [lin_add(lb, la, -1)],
+                   "Eq": [lin_add(la, lb, -1), lin_add(lb, la, -1)]}.get(op, [])
+            new = [g for g in new if g[1]]
+            if new:
+                st.facts = st.facts | frozenset(new)
+            return True
         if name.endswith("::is_empty") and args:
             s = self._len_sym(args[0])
             if s:
@@ -1337,7 +1378,21 @@ class Analysis:
             if arg_cond is not None:
                 st.cond[key] = arg_cond
         elif summ is not None:
-            for suf, iv in summ.get("ret", {}).items():
+            ret = summ.get("ret", {})
+            cb = getattr(self, "ctx_summary", None)
+            if cb is not None and ret.get("#d") not in ((0, 0), (1, 1)):
+                # the callee's result variant is not known in general: analyse it once more for the values of this call
+                # (arguments whose interval is a single value - typically a flag or a constant)
+                ent = {}
+                for i_, a_ in enumerate(args):
+                    iv_ = self.op_iv(st, a_)
+                    if iv_ is not None and iv_[0] == iv_[1]:
+                        ent["_%d" % (i_ + 1)] = iv_
+                if ent:
+                    s2 = cb(name, ent)
+                    if s2 is not None:
+                        ret = s2.get("ret", ret)
+            for suf, iv in ret.items():
                 st.iv[key + suf] = iv
             if new_cond:
                 st.cond[key] = new_cond
@@ -1592,7 +1647,23 @@ class Analysis:
                     ok = merge(ok, collect(st))
                 elif d is None or d[0] <= 0:
                     sound = False
-        return {"ret": acc or {}, "ok": sorted(ok) if (ok and sound) else []}
+        out = {"ret": acc or {}, "ok": sorted(ok) if (ok and sound) else []}
+        # a predicate: the function returns exactly `a <op> b` with a, b linear in its (never assigned) arguments
+        d0 = self.single.get("_0")
+        if d0 and d0[2].get("k") == "bin" and d0[2].get("op") in NEG and d0[0] in self.inn:
+            st0 = self.inn[d0[0]].copy()
+            self.block_transfer(d0[0], st0, upto=d0[1])
+            la, lb = self.op_lin(st0, d0[2]["a"]), self.op_lin(st0, d0[2]["b"])
+
+            def over_args(l):
+                for sy, _c in l[1]:
+                    base = sy[4:-1] if sy.startswith("len(") else sy
+                    if base not in args:
+                        return False
+                return True
+            if la is not None and lb is not None and over_args(la) and over_args(lb):
+                out["bool"] = (d0[2]["op"], la, lb)
+        return out
 
     # -------------------------------------------------------------- proofs
     def _sym_iv(self, st, s):
